@@ -409,12 +409,69 @@ def boundary_sweep(ck, ctx):
     ck.acc.exhaustive.append("10 accessors x boundary instants of the generator x {no zone, +05:30, -08:00, +14:00}")
 
 
+# A host may bind a timestamp made from a datetime in an IANA zone (zoneinfo): the value denotes an instant all the same, and timestamp
+# arithmetic is arithmetic on instants.  The laws are driven with such bindings around the days clocks change; a mismatch that goes away
+# when the same instants are bound in UTC is attributed to the carried zone (mechanism `carried-iana-zone`).
+IANA_CARRIED = ["Europe/Paris", "America/New_York", "Australia/Lord_Howe", "America/St_Johns", "Asia/Kolkata", "Pacific/Apia"]
+IANA_LAWS = ["t - t2", "t + d", "d + t", "t - d", "(t + d) - d", "(t + d) - t", "t2 + (t - t2)", "t < t + d", "t - t2 == d"]
+
+
+def iana_dress(benv, env, zones):
+    import datetime
+    import zoneinfo
+
+    ct = core.celpy().celtypes
+    epoch = datetime.datetime(1970, 1, 1, tzinfo=datetime.timezone.utc)
+    for k, mvv in env.items():
+        if mvv[0] == "ts":
+            benv[k] = ct.TimestampType((epoch + datetime.timedelta(microseconds=mvv[1])).astimezone(zoneinfo.ZoneInfo(zones[k])))
+    return benv
+
+
+def iana_carried_cases(ck, ctx, rnd, n):
+    acc = ck.acc
+    laws = [(label, node) for label, node in LAWS if label in IANA_LAWS]
+    switch_days = [(2021, 3, 14), (2021, 11, 7), (2023, 3, 26), (2023, 10, 29), (2021, 4, 4), (2021, 10, 3), (2022, 3, 27), (2022, 4, 3), (2030, 6, 15), (1999, 12, 31)]
+    for i in range(n):
+        label, node = laws[i % len(laws)]
+        base = rnd.choice(switch_days)
+        us = (civil.days_from_civil(*base) * 86400 + rnd.randint(-86400, 2 * 86400)) * 10**6
+        d_us = rnd.choice([3600, 7200, 86400, -86400, 1800, 2 * 86400, 30 * 86400, -3600, 200 * 86400, rnd.randint(-400 * 86400, 400 * 86400)]) * 10**6
+        env = {"t": ("ts", us), "t2": ("ts", us - d_us), "d": ("dur", d_us)}
+        same = rnd.random() < 0.6
+        z1 = rnd.choice(IANA_CARRIED)
+        zones = {"t": z1, "t2": z1 if same else rnd.choice(IANA_CARRIED)}
+        exp = expected_of(node, env)
+        if exp[0] == "U":
+            continue
+        src = lang.to_text(node)
+        benv = iana_dress(MV.cel_env(env), env, zones)
+        for r in "IC":
+            out = core.eval_cached(r, src, benv)
+            acc.hook("evaluate:" + r)
+            acc.hook("iana-carried-timestamp")
+            acc.evaluations += 1
+            ok = agrees(out, exp)
+            acc.cell(label, "carried-iana", "same-zone" if same else "two-zones", exp[0], r, "ok" if ok else "differ")
+            if ok:
+                continue
+            plain = core.eval_cached(r, src, MV.cel_env(env))
+            carried = agrees(plain, exp)
+            acc.violation(
+                f"{r} arithmetic {'carried-iana-zone' if carried else 'plain'} law={label.replace(' ', '')} obs={diag.oclass(out).split('@')[0]} exp={'E' if exp[0] == 'E' else 'V:' + exp[1][0]}",
+                f"{'interpreted' if r == 'I' else 'compiled'}: {src} with t={MV.ts_text(us)} carried in {zones['t']}, t2={MV.ts_text(us - d_us)} carried in {zones['t2']}, d={d_us // 10**6}s gave {core.jkey(out)[:90]}, expected {str(exp)[:90]}"
+                + ("; the same instants bound in UTC give the expected outcome" if carried else ""),
+                {"label": label, "src": src, "env": MV.enc_env(env), "runner": r, "tol": 0, "zones": zones},
+            )
+
+
 def run(ctx):
     acc = ctx.acc
     rnd = ctx.rnd
     core.celpy()
     ck = Checker(acc)
     boundary_sweep(ck, ctx)
+    iana_carried_cases(ck, ctx, rnd, ctx.scale(3600, 72000))
     edge_accessor_cases(ck, rnd, ctx.scale(2400, 48000))
     accessor_cases(ck, rnd, ctx.scale(48000, 960000))
     law_cases(ck, rnd, ctx.scale(36000, 720000))
@@ -428,6 +485,8 @@ def replay(case):
     core.celpy()
     env = MV.dec_env(case["env"])
     benv = MV.cel_env(env)
+    if case.get("zones"):
+        benv = iana_dress(benv, env, case["zones"])
     out = core.api_eval(case["runner"], case["src"], benv)
     import json
 
